@@ -12,6 +12,7 @@ TOL_PROJ = -8           # max|C C^T - D_exact|   at a fixed point   <= 1e-8
 TOL_EFP = -8            # |E - E_exact| at a fixed point            <= 1e-8 max(1,|E|)
 TOL_ECONV = -6          # |E - E_ref| from a perturbed guess        <= 1e-6 max(1,|E|)
 TOL_DERIV = -8          # eigen-derivatives                         <= 1e-8 max(1,|exact|,|Adot|)
+RHO_MAX = 0.75          # molecules are judged when the Roothaan map contracts by <= 0.75 per step (0.75^30 = 2e-4)
 MOLS = {
     "H2": ("H 0 0 0; H 0 0 0.74", 0),
     "H4": ("H 0 0 0; H 0 0 0.9; H 0 0 1.9; H 0 0 2.8", 0),
@@ -160,8 +161,7 @@ def fixed_points(chk, run: Runner, rng):
         insts.append(I)
     orc = scf.scf_oracle(chk, insts)
     stats = {"instances": len(insts), "certified_fixed_points": 0, "certified_well_conditioned": 0,
-             "decoys_rejected": 0, "fock_space_certified": 0, "gaponly_fixed_points": 0,
-             "gaponly_left_by_30_iterations": 0}
+             "decoys_rejected": 0, "fock_space_certified": 0, "gaponly_fixed_points": 0}
     thetas = (0.05, 0.15, 0.3)
     degenerate = []
     for I in insts:
@@ -348,20 +348,23 @@ def molecules(chk, run: Runner, rng):
         core = [np.linalg.eigh(h)[1][:, :nelec[sp]] for sp in (0, 1)]
         Eref, it, Dref, Cs, es, conv = scf.independent_scf(hs, L, core, nelec)
         ratio = spec_ratio(hs, L, Cs, es, nelec)
+        rho = scf.roothaan_radius(hs, L, Dref, nelec, kind)
+        judged = rho <= RHO_MAX
         info[name] = {"norb": n, "nelec": list(nelec), "pyscf": e_pyscf, "independent_scf": Eref, "iterations": it,
-                      "response_over_gap": ratio, "converged": conv}
+                      "response_over_gap": ratio, "roothaan_spectral_radius": round(rho, 4), "judged": bool(judged),
+                      "converged": conv}
         if not conv or abs(Eref - e_pyscf) > 1e-8 * max(1.0, abs(e_pyscf)):
             raise MachineryError(f"{name}: the harness's independent SCF ({Eref}) and pyscf ({e_pyscf}) disagree")
         what = (f"{kind}.optimize on {name}/sto-3g (Loewdin basis, norb {n}, nelec {nelec}); electronic energy: independent "
                 f"numpy SCF {Eref:.12g}, pyscf {e_pyscf:.12g}")
-        run.run(kind, n, nelec, hs, L, core, "molecule", ref_energy=Eref, tol_e=TOL_ECONV,
+        run.run(kind, n, nelec, hs, L, core, "molecule", ref_energy=Eref, tol_e=TOL_ECONV, judged=judged,
                 what=what + ", core-Hamiltonian guess", tag=("mol", name, "core"), energy_clause="energy_vs_independent_scf")
         chk.case(("mol-core", name))
         for th in (0.0, 0.1, 0.3):
             Cr = [scf.rotation(rng, n, th) @ Cs[sp][:, :nelec[sp]] for sp in (0, 1)]
             if kind == "rhf":
                 Cr[1] = Cr[0]
-            run.run(kind, n, nelec, hs, L, Cr, "molecule", ref_energy=Eref, tol_e=TOL_ECONV,
+            run.run(kind, n, nelec, hs, L, Cr, "molecule", ref_energy=Eref, tol_e=TOL_ECONV, judged=judged,
                     what=what + f", converged orbitals rotated by <= {th}", tag=("mol", name, th),
                     energy_clause="energy_vs_independent_scf")
             chk.case(("mol-rot", name, th))
@@ -396,7 +399,7 @@ def eigen_derivative(chk, code, R, rng):
     insts = [scf.gen_eigh(i + 1, rng, n, d, cls, k) for i, (n, d, cls, k) in enumerate(eigh_plan(chk))]
     orc = scf.eigh_oracle(chk, insts)
     stats = {"instances": len(insts), "nondegenerate_judged": 0, "exact_tie": 0, "near_tie": 0,
-             "cluster_level_agreement_in_tied_instances": [0, 0], "bitwise_equal_eigenvalues_from_lapack": 0}
+             "bitwise_equal_eigenvalues_from_lapack": 0}
     for I in insts:
         o = orc[I["id"]]
         if not o["wellformed"] or not all(g["cert"] for g in o["groups"]):
@@ -500,7 +503,7 @@ SELFTEST = [
 
 def report(chk, R, verdicts):
     obs = {"gaponly_fixed_point_runs": 0, "gaponly_fixed_point_left": 0, "tied_cluster_runs": 0, "tied_cluster_agree": 0,
-           "rho_left": [], "rho_kept": []}
+           "rho_left": [], "rho_kept": [], "mol": {}}
     worst = {}
     for r in R.recs:
         k, v = R.info[r["id"]], verdicts[r["id"]]
@@ -513,7 +516,9 @@ def report(chk, R, verdicts):
             if k.get("judged") and np.isfinite(err):
                 worst[nm] = max(worst.get(nm, 0.0), err / scale)
         if not k.get("judged"):
-            if k["rtype"] == "scf":
+            if k["rtype"] == "scf" and k["cls"] == "molecule":
+                obs["mol"][k["tag"][1]] = max(obs["mol"].get(k["tag"][1], 0.0), max(e / sc for (_, e, sc, _) in k["raw"]))
+            elif k["rtype"] == "scf":
                 obs["gaponly_fixed_point_runs"] += 1
                 obs["gaponly_fixed_point_left"] += int(not v["ok"])
                 obs["rho_kept" if v["ok"] else "rho_left"].append(round(k.get("roothaan_radius", float("nan")), 3))
@@ -545,6 +550,8 @@ def report(chk, R, verdicts):
             "runs": obs["gaponly_fixed_point_runs"], "moved_or_energy_changed_after_30_iterations": obs["gaponly_fixed_point_left"],
             "numerical_spectral_radius_of_the_roothaan_map_where_moved": sorted(obs["rho_left"]),
             "numerical_spectral_radius_of_the_roothaan_map_where_kept": sorted(obs["rho_kept"])},
+        "molecules_with_slowly_contracting_roothaan_map_(worst |E - E_ref|/max(1,|E|) after 30 iterations)":
+            {k2: float(f"{x:.3e}") for k2, x in obs["mol"].items()},
         "cluster_projector_and_summed_eigenvalue_derivatives_in_(near-)tied_spectra": {
             "runs": obs["tied_cluster_runs"], "equal_to_exact_within_1e-8": obs["tied_cluster_agree"]}})
     chk.note("worst_judged_residual_over_scale", {k: float(f"{x:.3e}") for k, x in sorted(worst.items())})
@@ -577,7 +584,9 @@ def run(chk: Check):
         "are replayed too but reported as observations (an undamped Roothaan iteration may legitimately amplify round-off there)",
         "random float Hamiltonians are judged only when the spec's RespNorm/gap, evaluated in floating point at the "
         "independent solver's solution, is <= 1/4; the molecules (H2, H4, LiH, H3, [thorough: H2O, H4 triplet, Li], sto-3g, "
-        "Loewdin-orthogonalised, ERIs factorised exactly by eigen-decomposition) are judged unconditionally",
+        "Loewdin-orthogonalised, ERIs factorised exactly by eigen-decomposition) are judged when the numerically "
+        "estimated spectral radius of the Roothaan map at the solution is <= 0.75 (30 iterations then shrink an error "
+        "by 2e-4; stretched triplet H4 has 0.89 and is reported as an observation)",
         "tolerances: orthonormality 1e-10; occupied projector at a fixed point 1e-8; energy at a fixed point 1e-8*max(1,|E|); "
         "energy from a perturbed start 1e-6*max(1,|E|); eigenvalue derivatives 1e-8*max(1,|exact|,|Adot|), projector "
         "derivatives 1e-8*max(1,|exact|,|Adot|/min gap) (round-off of an eigenvector derivative is eps*|A||Adot|/gap^2), "
